@@ -75,6 +75,12 @@ def _case(draw):
     eps_clip = draw(st.sampled_from([1e-6, 1e-6, 1e-4, 1e-2] + ([1e-10] if width == "float64" else [])))
     lo, hi = draw(_bounds(d, width))
     case = {"cls": cls, "ns": ns, "width": width, "d": d, "rows": rows, "eps_clip": eps_clip, "lower": lo, "upper": hi}
+    # bounds written as Python ints where integral; dtype left to the class default
+    case["int_bounds"] = draw(st.booleans())
+    # (single classes only: a composite without a declared dtype may work wider than its separately built parts; torch takes
+    # logarithms of integer tensors in float32, so float64 accuracy without a declared dtype is asked of NumPy and JAX only)
+    case["dtype_default"] = ((width == "float32" or ns != "torch") and cls not in ("composite", "flowtransform")
+                             and draw(st.booleans()))
     if cls in ("composite", "flowtransform"):
         kinds = draw(st.lists(st.sampled_from(["bounded", "bounded", "periodic", "free"] if cls == "composite" else ["bounded", "bounded", "free"]),
                               min_size=d, max_size=d))
@@ -153,7 +159,7 @@ def _bounded_checks(case, ctx, t, kind, x_arr, tag):
     if not _finite(ctx, case, f"{tag}inverse", x_back, lji_i):
         return False
     y, lj, xb, lji = _np64(y_i), _np64(lj_i), _np64(x_back), _np64(lji_i)
-    if env.width_of(y_i) != case["width"] or env.width_of(x_back) != case["width"]:
+    if not case.get("dtype_default") and (env.width_of(y_i) != case["width"] or env.width_of(x_back) != case["width"]):
         ctx.fail(f"{tag}dtype", f"forward/inverse outputs are {y_i.dtype}/{x_back.dtype} for {case['width']} input", case)
     u = (x - lo) / den
     uc = np.clip(u, e, 1 - e)
@@ -312,11 +318,24 @@ def _degenerate(a, case):
     return bool((a.std(0) <= 1e3 * eps * (np.abs(a).max(0) + 1e-300)).any())
 
 
+def _dtype_arg(case):
+    """dtype handed to the constructors: the native dtype of the width, or None (the class default) for float32 cases that say so."""
+    return None if case.get("dtype_default") else env.native_dtype(case["ns"], case["width"])
+
+
+def _as_written(case, seq):
+    """Bounds as users write them: Python ints where the value is integral (if the case says so)."""
+    if seq is None or not case.get("int_bounds"):
+        return seq
+    return [int(v) if np.isfinite(v) and float(v) == int(v) and abs(v) < 2**53 else v for v in seq]
+
+
 def _mk(case, kind, lo, hi):
     from aspire import transforms as T
 
     xp = env.xp_of(case["ns"])
-    dt = env.native_dtype(case["ns"], case["width"])
+    dt = _dtype_arg(case)
+    lo, hi = _as_written(case, lo), _as_written(case, hi)
     if kind == "logit":
         return T.LogitTransform(lower=lo, upper=hi, xp=xp, eps=case["eps_clip"], dtype=dt)
     if kind == "probit":
@@ -346,7 +365,7 @@ def run_case(case, ctx):
     from aspire import transforms as T
 
     cls = case["cls"]
-    labels = [cls, case["ns"], case["width"]]
+    labels = [cls, case["ns"], case["width"]] + (["dtype-default"] if case.get("dtype_default") else []) + (["int-bounds"] if case.get("int_bounds") else [])
     x64, u = _points(case)
     rows, d = x64.shape
     lo, hi = case["lower"], case["upper"]
@@ -404,12 +423,12 @@ def _composite(case, ctx, labels, x64, u):
         x[:, free_cols] = _free_cols(case, rows, len(free_cols))
     if per_cols:
         x = _periodic_points(case, x, per_cols)
-    bounds = {p: ([-np.inf, np.inf] if kinds[i] == "free" else [lo[i], hi[i]]) for i, p in enumerate(params)}
+    bounds = {p: ([-np.inf, np.inf] if kinds[i] == "free" else _as_written(case, [lo[i], hi[i]])) for i, p in enumerate(params)}
     if case.get("order_seed", 0) % 2:  # the mapping may list the names in another order than `parameters`
         items = list(bounds.items())
         bounds = dict(items[i] for i in np.random.default_rng(case["order_seed"]).permutation(len(items)))
     kw = dict(parameters=params, prior_bounds=bounds, bounded_to_unbounded=case["b2u"],
-              bounded_transform=case["bounded_transform"], affine_transform=case["affine"], xp=xp, eps=case["eps_clip"], dtype=dt)
+              bounded_transform=case["bounded_transform"], affine_transform=case["affine"], xp=xp, eps=case["eps_clip"], dtype=_dtype_arg(case))
     try:
         if case["cls"] == "flowtransform":
             c = T.FlowTransform(**kw)
